@@ -207,7 +207,7 @@ def run(ctx):
         elif r == 12:
             a = rand_dt_text(rng)
             if rng.randrange(2):
-                bt = rand_duration_text(rng).lstrip("+-")
+                bt = rand_duration_text(rng).lstrip("-")      # "+" is part of the dur-value grammar, a negative duration is not a period
             else:
                 bt = rand_dt_text(rng)
                 bt = bt.rstrip("Z") + ("Z" if a.endswith("Z") else "")
@@ -422,10 +422,11 @@ def check_case(ctx, case):
     elif kind == "period-grammar":
         t = case[1]
         a, b = t.split("/")
-        want = (R4.eval_datetime(a), R4.eval_duration(b) if b.startswith("P") else R4.eval_datetime(b))
-        if not b.startswith("P") and want[1] < want[0]:
+        isdur = b.lstrip("+").startswith("P")
+        want = (R4.eval_datetime(a), R4.eval_duration(b) if isdur else R4.eval_datetime(b))
+        if not isdur and want[1] < want[0]:
             return      # "the start MUST be before the end": not grammar-valid
-        if b.startswith("P"):
+        if isdur:
             try:
                 want[0] + want[1]
             except OverflowError:
